@@ -518,19 +518,23 @@ type c17LongObj struct {
 }
 
 var c17LongGens = []struct {
-			name string
-			f    func(i int) (float64, float64)
-		}{
-			{"tiny-full-mantissa", func(i int) (float64, float64) {
-				return float64(i+1) * 1.2345678901234567e-40, -float64(2*i+1) * 7.654321098765432e-41
-			}},
-			{"subnormal", func(i int) (float64, float64) { return float64(i+1) * 4.9406564584124654e-324, -float64(i+3) * 1.2345e-310 }},
-			{"e-300", func(i int) (float64, float64) { return 1.2345678901234567e-300 * float64(i+1), 9.87654321e-200 / float64(i+1) }},
-			{"in-range-17-digits", func(i int) (float64, float64) {
-				return 100.12345678901234 + float64(i)*1e-13, -45.123456789012345 - float64(i)*1e-14
-			}},
-			{"huge", func(i int) (float64, float64) { return 1.2345678901234567e300 * float64(i+1), -1.7976931348623157e308 }},
-		}
+	name string
+	f    func(i int) (float64, float64)
+}{
+	{"tiny-full-mantissa", func(i int) (float64, float64) {
+		return float64(i+1) * 1.2345678901234567e-40, -float64(2*i+1) * 7.654321098765432e-41
+	}},
+	{"subnormal", func(i int) (float64, float64) {
+		return float64(i+1) * 4.9406564584124654e-324, -float64(i+3) * 1.2345e-310
+	}},
+	{"e-300", func(i int) (float64, float64) {
+		return 1.2345678901234567e-300 * float64(i+1), 9.87654321e-200 / float64(i+1)
+	}},
+	{"in-range-17-digits", func(i int) (float64, float64) {
+		return 100.12345678901234 + float64(i)*1e-13, -45.123456789012345 - float64(i)*1e-14
+	}},
+	{"huge", func(i int) (float64, float64) { return 1.2345678901234567e300 * float64(i+1), -1.7976931348623157e308 }},
+}
 
 func c17LongObjs(f func(i int) (float64, float64), n int) []c17LongObj {
 	pts := make([]geometry.Point, n)
